@@ -188,11 +188,30 @@ def fingerprint(prog):
             for r in ("W_PIECE_SIZE", "W_KEY_LEN", "W_VAL_LEN", "W_PIECE_OFFSET", "ZERO_PAD"):
                 x = R.get(r)
                 if x and any(y.id == x.id for y in tg):
-                    seq.append((b, r if r != "ZERO_PAD" else "ZERO_PAD", c09.codec_of(prog, R, r) if r != "ZERO_PAD" else "zero"))
+                    codec = c09.codec_of(prog, R, r) if r != "ZERO_PAD" else "zero"
+                    if r == "W_PIECE_OFFSET":
+                        codec = "%s:%s" % (codec, _kind_of(t["arg_tys"][1]))      # which kind of record the stored offset points at
+                    seq.append((b, r, codec))
             if t.get("callee") in c09.RAW_WRITERS:
                 seq.append((b, "RAW", "raw"))
         seq.sort(key=lambda x: len(f.dominators().get(x[0], ())))
         rec[kind + "_record"] = [[r, c] for b, r, c in seq]
+        # the full-record reader consumes the same fields in the same order
+        rd = R.need("KEY_READ_PIECE") if kind == "key" else [x for x in prog.fns.values() if x.name == "read_piece" and x.impl_self_adt == "abyssiniandb::filedb::inner::val::VarFileValueCache"][0]
+        rseq = []
+        for b, t in rd.calls():
+            tg, _ = prog.targets(t, rd)
+            for r in ("R_PIECE_SIZE", "R_KEY_LEN", "R_VAL_LEN", "R_PIECE_OFFSET"):
+                x = R.get(r)
+                if x and any(y.id == x.id for y in tg):
+                    nm = "W" + r[1:]
+                    if r == "R_PIECE_OFFSET":
+                        nm = "%s:%s" % (nm, _kind_of(rd.local_ty(t["dest"]["l"])))
+                    rseq.append((b, nm))
+            if (t.get("callee") or "") == "rabuf::SmallRead::read_exact_maybeslice":
+                rseq.append((b, "RAW"))
+        rseq.sort(key=lambda x: len(rd.dominators().get(x[0], ())))
+        rec[kind + "_record_reader"] = [r for b, r in rseq]
     for nm, role in (("piece_offset_write", "W_PIECE_OFFSET"), ("piece_offset_read", "R_PIECE_OFFSET"), ("piece_size_write", "W_PIECE_SIZE"), ("piece_size_read", "R_PIECE_SIZE")):
         rec["scale:" + nm] = scaling(prog, R.need(role))
     push = R.need("SLOT_PUSH")
@@ -217,6 +236,14 @@ def fingerprint(prog):
     fp["signatures"] = sigs
     fp["hash"] = hash_fingerprint(prog)
     return fp
+
+
+def _kind_of(ty):
+    if "Piece<abyssiniandb::filedb::inner::semtype::Value>" in ty:
+        return "Value"
+    if "Piece<abyssiniandb::filedb::inner::semtype::Key>" in ty:
+        return "Key"
+    return "?"
 
 
 def _seek_w(prog, R, fn, widths):
@@ -277,6 +304,11 @@ def check(ctx):
         if w or r:
             ctx.check(len(w) == 1 and len(r) == 1 and w[0][0] == "Div" and r[0][0] == "Mul" and w[0][1] == r[0][1], "fingerprint-consistency", nm + ":scale-inverse",
                       "%s is written as value/%s and read as value*%s" % (nm, w, r))
+    # reader/writer agreement: the full-record readers consume what the writers emit, in order
+    for kind in ("key", "val"):
+        w = [r if not c or ":" not in str(c) or r != "W_PIECE_OFFSET" else "%s:%s" % (r, str(c).split(":")[1]) for r, c in fp["records"][kind + "_record"] if r != "ZERO_PAD"]
+        r = fp["records"].get(kind + "_record_reader")
+        ctx.check(w == r, "reader-writer-agreement", kind, "the %s record reader consumes %s but the writer emits %s" % (kind, r, w))
     ctx.sample({"fingerprint_excerpt": {"files": fp["files"], "hash": fp["hash"], "signatures": fp["signatures"]}})
     c02.check_seedless(ctx, prog, rule="placement-seedless")
 
